@@ -79,13 +79,14 @@ def decode_history(m, cycles, shipped, extra_pre=None):
         def doc(nm, rn):
             d = I8(c.served[nm])
             return {'id': d, 'version': I8(Ver(c.served[nm])), 'signers': signers_of(d, rn)}
-        consistent = bool(z3.is_true(ev(Cons(z3.BitVecVal(cur, 8)))))
+        # file names follow the root the ENCODED client ends on (the model's), not the reference walk
+        consistent = bool(z3.is_true(ev(Cons(z3.BitVecVal(final if final is not None else cur, 8)))))
         cy = {'shipped': 0, 'serve_roots': serve, 'consistent': consistent, 'safe': False,
               'timestamp': doc('ts', 'Timestamp'), 'snapshot': doc('sn', 'Snapshot'), 'targets': doc('tg', 'Targets'),
               'ts_meta': {'version': I8(MVer(c.served['ts'], IDV(0)))}, 'sn_meta': {'version': I8(MVer(c.served['sn'], IDV(1)))}}
         out_cycles.append(cy)
         predicted.append({'ok': bool(z3.is_true(ev(c.ok))), 'ok_root': bool(z3.is_true(ev(c.ok_root))), 'ok_ts': bool(z3.is_true(ev(c.ok_ts))), 'ok_sn': bool(z3.is_true(ev(c.ok_sn))),
-                          'older': bool(z3.is_true(ev(c.older))),
+                          'older': bool(z3.is_true(ev(c.older_any))),
                           'versions': {'root': I8(Ver(c.root)), 'timestamp': I8(Ver(c.ts)), 'snapshot': I8(Ver(c.sn)), 'targets': I8(Ver(c.tg))} if z3.is_true(ev(c.ok)) else None})
     if extra_pre:
         for k, ops in extra_pre.items(): out_cycles[k]['pre'] = ops
@@ -99,3 +100,62 @@ def agree(pred, real):
         if p['ok'] and p['versions'] != r['versions']: diffs.append(f'cycle {k+1}: versions predicted {p["versions"]} real {r["versions"]}')
         if not p['ok'] and p['older'] != (r.get('err') == 'OlderMetadata'): diffs.append(f'cycle {k+1}: predicted older={p["older"]} real err={r.get("err")}')
     return diffs
+
+# ---------------------------------------------------------------- reference walk + differential validation
+def reference_root_walk(sc, cycle):
+    """what the property demands of the root walk, computed on the concrete scenario: (final root index, request names)"""
+    roots = sc['roots']; cur = roots[cycle.get('shipped', 0)]; names = []
+    def signed_by(doc, signer_root):
+        return any(k in doc['signers'] for k in signer_root['roles']['root']['keys'])
+    budget = cycle.get('limits', {}).get('max_root_updates', 1024); start = cur['version']
+    while True:
+        if not (cur['version'] < start + budget): return None, names       # MaxUpdatesExceeded
+        name = str(cur['version'] + 1); names.append(name + '.root.json')
+        idx = cycle.get('serve_roots', {}).get(name)
+        if idx is None: break
+        cand = roots[idx]
+        if not (signed_by(cand, cur) and signed_by(cand, cand)): return None, names       # must be refused
+        if cand['version'] < cur['version']: return None, names
+        if cand['version'] == cur['version']: break
+        cur = cand
+    return cur, names
+
+def differential(R, sums, ncycles=1, max_models=6, build=None, extra=None, label='differential'):
+    """solver-chosen clean histories, one per distinct outcome class, replayed natively: the encoding's prediction, the
+    native outcome and the reference expectation must agree.  Returns list of (description, scenario) for real deviations
+    from the reference; encoder/native disagreements are recorded as inconclusive."""
+    import props.C03 as C03
+    shipped, cyc, f = (build or C03.build_history)(sums, ncycles, 'd')
+    s = z3.Solver(); s.set('timeout', R.timeout_ms); s.set('random_seed', R.seed % (2**31))
+    s.add(f); s.add(clean_constraints(cyc, shipped))
+    if extra: s.add(extra(cyc, shipped))
+    found = []
+    klass = []
+    for c in cyc:
+        klass += [c.ok_root, c.ok_ts, c.ok_sn, c.ok, c.older, c.root == shipped] + [c.root == h for h in c.hops]
+    n = 0
+    while n < max_models:
+        r = s.check()
+        if r != z3.sat: break
+        m = s.model(); n += 1
+        sc, pred = decode_history(m, cyc, shipped)
+        real = R.replay('history', sc)
+        R.differential['scenarios'] += 1
+        d = agree(pred, real)
+        devs = []
+        for k, (cy, rc) in enumerate(zip(sc['cycles'], real['cycles'])):
+            exp_root, names = reference_root_walk(sc, cy)
+            got = [x[0] for x in rc['requests'] if x[0].endswith('.root.json')]
+            if rc['ok'] and (exp_root is None or rc['versions']['root'] != exp_root['version']):
+                devs.append(f'cycle {k+1}: trusted root version {rc["versions"]["root"]} but the reference walk ' + ('refuses the chain' if exp_root is None else f'ends at version {exp_root["version"]}'))
+            if exp_root is not None and got != names and not (len(got) < len(names) and not rc['ok']):
+                devs.append(f'cycle {k+1}: root files requested {got}, reference {names}')
+        if devs: found.append(('; '.join(devs), sc))
+        elif d: R.inconclusive.append(f'{label}: encoding and native run disagree: ' + '; '.join(d) + ' scenario=' + json_short(sc))
+        else: R.differential['agree'] += 1
+        s.add(z3.Or([x != m.eval(x, model_completion=True) for x in klass]))
+    return found
+
+def json_short(sc):
+    import json
+    return json.dumps(sc)[:600]
